@@ -81,6 +81,18 @@ def gen_scenario(seed, profile="rebalance"):
             else:
                 events.append([te, "silence_group_requests", rng.randrange(nm), rng.choice(("Heartbeat", "Heartbeat",
                                                                                            "SyncGroup"))])
+    if profile == "rebalance" and rng.random() < 0.35:
+        # commit replies that take a while, with records still arriving: a rebalance or stop then meets a member
+        # whose consumer has a commit in flight and has processed further since
+        who = rng.randrange(nm)
+        t0_ = round(rng.uniform(0.5, 6.0), 3)
+        events.append([t0_, "slow_commits", who, rng.choice((0.3, 0.6, 0.9))])
+        tt = t0_
+        for _ in range(rng.choice((6, 12))):
+            tt += rng.choice((0.1, 0.25, 0.4))
+            tp = rng.choice(sorted(topics))
+            events.append([round(tt, 3), "append", tp, rng.randrange(topics[tp]), 1])
+        events.append([round(tt - rng.uniform(0.0, 1.0), 3), "evict", rng.randrange(nm)])
     events.sort(key=lambda e: e[0])
     return dict(seed=seed, profile=profile, brokers=list(range(1, nb + 1)), topics=topics, members=members,
                 events=events, faults=[], latency=rng.choice((0.0, 0.002, 0.02)), horizon=22.0,
@@ -268,6 +280,19 @@ def _apply_event(tr, e):
         m = tr.members["m%d" % e[2]]
         cl.faults.add(dict(api=e[3], client_id=m.name.encode(), nth=[0], after=tr.w.clock.seconds(),
                            action=dict(kind="silent", apply=False)))
+    elif kind == "coordinator_failover":
+        old = cl.coordinator_for(GROUP)
+        new = e[2] if e[2] != old else [n for n in sorted(cl.brokers) if n != old][0]
+        # group state does not survive the fail-over: members have to find the new coordinator and join afresh
+        cl.groups.pop(GROUP, None)
+        cl.move_coordinator(GROUP, new)
+        for api in GROUP_APIS:
+            cl.faults.add(dict(api=api, broker=old, action=dict(kind="silent", apply=False)))
+        tr.emit(None, "coordinator_failed_over", old=old, new=new)
+    elif kind == "slow_commits":
+        m = tr.members["m%d" % e[2]]
+        cl.faults.add(dict(api="OffsetCommit", client_id=m.name.encode(), nth=list(range(0, 12)), after=tr.w.clock.seconds(),
+                           action=dict(kind="ok", delay=e[3])))
     elif kind == "reject_commits":
         m = tr.members["m%d" % e[2]]
         cl.faults.add(dict(api="OffsetCommit", client_id=m.name.encode(), nth=[0, 1], after=tr.w.clock.seconds(),
